@@ -181,6 +181,9 @@ def cases(shard, nshards, seed, tier):
         # two parsed tables joined with plain pandas (pd.concat keeps both indexes: labels are not unique), then written
         if i % 20 == 11 and mine():
             yield {"family": "concatenated-frames", "i": i}
+    for path in (("pdb-pdb",) if tier == "quick" else ("pdb-pdb", "cif-pdb-cif")):
+        if mine():
+            yield {"family": "seventy-thousand-atoms", "path": path}
     files = [f for f in gen3d.corpus_files() if os.path.getsize(os.path.join(core.REPO, f)) < (150_000 if tier == "quick" else 900_000)]
     for fn in files:
         for path in ("pdb-pdb", "cif-cif", "pdb-cif-pdb", "cif-pdb-cif"):
@@ -373,8 +376,29 @@ def run_case(case, rec):
     elif fam == "generated":
         rng = random.Random(f"{seed}:C09:{case['i']}")
         path = case["path"]
-        rows = gentab.random_table(rng, blank_chain=(path == "pdb-pdb" and rng.random() < 0.15), null_occ=False, hetero=case["i"] % 3 == 1)
-        ctx = {"i": case["i"], "path": path}
+        restart = (case["i"] // 4) % 4 == 1
+        rows = gentab.random_table(rng, blank_chain=(path == "pdb-pdb" and rng.random() < 0.15), null_occ=False, hetero=case["i"] % 3 == 1, nmodels=rng.choice([2, 3]) if restart else None)
+        if restart:
+            # serial numbers restart in every MODEL (the usual layout of NMR ensembles)
+            first = min(r["serial"] for r in rows)
+            count = {}
+            for r in rows:
+                count[r["model"]] = count.get(r["model"], 0) + 1
+                r["serial"] = first + count[r["model"]] - 1
+        ctx = {"i": case["i"], "path": path, "serials-restart-per-model": restart}
+    elif fam == "seventy-thousand-atoms":
+        # more lines than 65536: seven chains of a thousand ten-atom residues
+        path = case["path"]
+        rows, serial = [], 0
+        names = ["P", "OP1", "OP2", "O5'", "C5'", "C4'", "C3'", "O3'", "C1'", "N1"]
+        for ci, ch in enumerate("ABCDEFG"):
+            for rn in range(1, 1001):
+                for ai, nm in enumerate(names):
+                    serial += 1
+                    rows.append({"rec": "ATOM", "serial": serial, "name": nm, "alt": None, "resname": "ACGU"[rn % 4], "chain": ch, "resseq": rn, "icode": None,
+                                 "x": round(ci * 40.0 + ai * 1.3, 3), "y": round(rn * 0.7 - 300.0, 3), "z": round((rn % 17) * 2.1 + ai * 0.4, 3), "occ": 1.0, "b": 20.0,
+                                 "element": nm[0], "charge": None, "model": 1})
+        ctx = {"atoms": len(rows), "path": path}
     else:
         s = gen3d.load(case["file"])
         rows = emit.rows_from_structure(s)
